@@ -101,6 +101,5 @@ pub mod t {
     pub mod l1 { use super::super::*; use crate::dtypes::*; cat_seq_q!(trunc_harness, 1); cat_dseq_q!(trunc_harness, 1); }
     pub mod l3 { use super::super::*; use crate::dtypes::*; cat_seq_q!(trunc_harness, 3); }
     trunc_noschema!(n_enum, EqData, 0);
-    trunc_noschema!(n_vec_string, Vec<String>, 2);
     trunc_noschema!(n_opt, Option<u16>, 0);
 }
